@@ -11,17 +11,17 @@ TMP="$(mktemp -d /tmp/rs2v_selftest.XXXXXX)"
 trap 'rm -rf "$TMP"' EXIT
 
 FILES="src/action_value.rs src/input_context/events.rs src/input_context/context_instance.rs src/input_context/context_instance/trigger_tracker.rs"
-FILES="$FILES src/input.rs src/input/input_reader.rs src/input_context/input_bind.rs"
+FILES="$FILES src/input.rs src/input/input_reader.rs src/input_context/input_bind.rs src/input_context.rs"
 for f in "$REPO"/src/input_context/input_condition/*.rs "$REPO"/src/input_context/input_modifier/*.rs; do
   FILES="$FILES ${f#$REPO/}"
 done
 
 # the compiled model files the tie needs
-MODEL="Model/Num Model/Value Model/State Model/Tracker Model/Cond Model/Modif Model/Reader Model/Action Proofs/ValueP"
+MODEL="Model/Num Model/Value Model/State Model/Tracker Model/Cond Model/Modif Model/Reader Model/Action Model/Registry Proofs/ValueP"
 # compile order of the regenerated files and the tie files
-CHAIN="Generated/GlamTbl Generated/ValueSrc Generated/EventsSrc Generated/TrackerSrc Proofs/SrcTieP Generated/DataSrc Generated/CondSrc Generated/GlamTbl2 Generated/ModifSrc Proofs/SrcTie2P Generated/BevyTbl Generated/ReaderSrc Proofs/SrcTie3P Generated/ActionSrc Proofs/SrcTie4P"
+CHAIN="Generated/GlamTbl Generated/ValueSrc Generated/EventsSrc Generated/TrackerSrc Proofs/SrcTieP Generated/DataSrc Generated/CondSrc Generated/GlamTbl2 Generated/ModifSrc Proofs/SrcTie2P Generated/BevyTbl Generated/ReaderSrc Proofs/SrcTie3P Generated/ActionSrc Proofs/SrcTie4P Generated/RegTbl Generated/RegistrySrc Proofs/SrcTie5P"
 ( cd "$COQ" && [ -f Makefile ] || coq_makefile -f _CoqProject -o Makefile >/dev/null 2>&1
-  cd "$COQ" && timeout 1500 make Model/Reader.vo Proofs/ValueP.vo Proofs/SrcTie2P.vo Proofs/SrcTie3P.vo Proofs/SrcTie4P.vo Model/Action.vo >/dev/null 2>&1 )
+  cd "$COQ" && timeout 1500 make Model/Reader.vo Proofs/ValueP.vo Proofs/SrcTie2P.vo Proofs/SrcTie3P.vo Proofs/SrcTie4P.vo Proofs/SrcTie5P.vo Model/Registry.vo >/dev/null 2>&1 )
 for f in $MODEL; do
   [ -f "$COQ/$f.vo" ] || { echo "missing $COQ/$f.vo (build the development first)"; exit 1; }
 done
@@ -48,7 +48,7 @@ tie_compiles() {
   local W="$TMP/coqwork" dirty=no
   rm -rf "$W"; mkdir -p "$W/Model" "$W/Proofs" "$W/Generated"
   for f in $MODEL; do cp "$COQ/$f.vo" "$W/$f.vo"; done
-  cp "$COQ/Proofs/SrcTieP.v" "$COQ/Proofs/SrcTie2P.v" "$COQ/Proofs/SrcTie3P.v" "$COQ/Proofs/SrcTie4P.v" "$W/Proofs/"
+  cp "$COQ/Proofs/SrcTieP.v" "$COQ/Proofs/SrcTie2P.v" "$COQ/Proofs/SrcTie3P.v" "$COQ/Proofs/SrcTie4P.v" "$COQ/Proofs/SrcTie5P.v" "$W/Proofs/"
   cp "$1"/*.v "$W/Generated/"
   for f in $CHAIN; do
     [ -f "$W/$f.v" ] || continue
@@ -185,6 +185,14 @@ run_edit action-drop-convert "$CI" 'let value = tracker.value().convert(self.dim
 run_edit action-conditions-before-modifiers "$CI" 'tracker.apply_modifiers(actions, time, &mut self.modifiers);\n        tracker.apply_conditions(actions, time, &mut self.conditions);' 'tracker.apply_conditions(actions, time, &mut self.conditions);\n        tracker.apply_modifiers(actions, time, &mut self.modifiers);'
 run_edit action-early-continue "$CI" 'let mut current_tracker = TriggerTracker::new(value);' 'if value.as_bool() { continue; }\n            let mut current_tracker = TriggerTracker::new(value);'
 
+# ---- fifth wave: ContextInstances
+IC=src/input_context.rs
+run_edit registry-shared-push "$IC" 'entities.push(entity);' 'entities.clear();'
+run_edit registry-insert-to-push "$IC" 'self.0.insert(index, group);' 'self.0.push(group);'
+run_edit registry-mode-swap "$IC" 'ContextMode::Exclusive => Self::Exclusive {' 'ContextMode::Shared => Self::Exclusive {' 'ContextMode::Shared => Self::Shared {' 'ContextMode::Exclusive => Self::Shared {'
+run_edit registry-new-entities "$IC" 'entities: vec![entity],' 'entities: vec![entity, entity],'
+run_edit registry-search-key "$IC" '|group| Reverse(group.priority())' '|group| Reverse(C::PRIORITY)'
+
 # ---- outside the subset: must be reported, not guessed
 run_unsupported() {
   local name="$1" file="$2"
@@ -206,6 +214,7 @@ run_unsupported unsupported-lost-mutation "$CD/hold.rs" 'let is_first_trigger = 
 run_unsupported unsupported-closure-capture "$IR" '.is_ok_and(|gamepad| gamepad.pressed(button)),' '.is_ok_and(move |gamepad| gamepad.pressed(button)),'
 run_unsupported unsupported-bevy-call "$IR" '&& self.keys.pressed(key)' '&& self.keys.just_pressed(key)'
 run_unsupported unsupported-action-early-return "$CI" 'let state = tracker.state();\n        let value = tracker.value()' 'let state = tracker.state();\n        if state == ActionState::None { return; }\n        let value = tracker.value()'
+run_unsupported unsupported-registry-ne "$IC" 'group.type_id() == TypeId::of::<C>()' 'group.type_id() != TypeId::of::<C>()'
 run_unsupported unsupported-extra-loop-statement "$TT" '        for condition in conditions {' '        self.blocked = false;\n        for condition in conditions {'
 
 if [ "$FAIL" = 0 ]; then echo "selftest: PASS"; else echo "selftest: FAIL"; exit 1; fi
